@@ -190,8 +190,20 @@ def _one_upload(rig, srv, idx, sub, n, style, last, width, how, seg_len, tag, vn
             _, bsz, chunk = how.split(":")
             for b in sx.items(value):
                 sx.assume((b < 128) & (b != 13))
+            if chunk == "lines":
+                # documented use: outfile.writelines(infile) - iterate over the lines; every 5th byte is a newline
+                for i, b in enumerate(sx.items(value)):
+                    sx.assume((b == 10) if i % 5 == 4 else (b != 10))
             fp = client.open(idx, sub, "r", encoding="ascii", buffering=int(bsz))
-            if chunk == "all":
+            if chunk == "lines":
+                lines = list(fp)
+                sx.prove(all(len(l) <= 5 for l in lines) and len(lines) == -(-n // 5), "one item per line",
+                         tag + "/lines")
+                parts = []
+                for l in lines:
+                    parts.extend(sx.cps(l))
+                txt = sx.mkstr(parts)
+            elif chunk == "all":
                 txt = fp.read()
             else:
                 parts = []
@@ -533,7 +545,7 @@ def jobs(tier):
             styles += [("seg-size", "empty"), ("seg-nosize", "empty")]
         for style, last in styles:
             for how in ("api", "raw7", "rawall", "readinto", "buf:c:1024:all", "buf:c:7:3", "buf:c:8:20",
-                        "buf:pyio:16:5", "text:-1:all", "text:7:3", "text:1:all", "text:8:20"):
+                        "buf:pyio:16:5", "text:-1:all", "text:7:3", "text:1:all", "text:8:20", "text:1024:lines"):
                 if n > 100 and how not in ("api", "rawall"):
                     continue
                 if n > 64 and how.startswith("text"):
